@@ -153,6 +153,23 @@ func ReadRequest(r io.Reader) (*Request, error) {
 	}, nil
 }
 
+// validateRequestRows re-checks the one-row rule once the transport has had
+// its chance to resolve a pointer batch. ReadRequest exempts zero-row
+// external-location and shared-memory pointer batches because the real
+// parameters are fetched later; a request that still has columns but not
+// exactly one row at dispatch time (a pointer nobody could resolve, or a
+// resolved payload with the wrong row count) must be refused here, because
+// parameter binding reads row 0 of every column.
+func validateRequestRows(batch arrow.RecordBatch) *RpcError {
+	if batch.Schema().NumFields() > 0 && batch.NumRows() != 1 {
+		return &RpcError{
+			Type:    "ProtocolError",
+			Message: fmt.Sprintf("Expected 1 row in request batch, got %d", batch.NumRows()),
+		}
+	}
+	return nil
+}
+
 // emptyBatch creates a zero-row batch with the given schema.
 func emptyBatch(schema *arrow.Schema) arrow.RecordBatch {
 	mem := defaultAllocator()
